@@ -395,7 +395,10 @@ fn case(rng: &mut Rng, ctx: &mut Ctx, forced: Option<(&str, Vec<u8>)>) {
             let kind = seq_kinds[i];
             let cancel_exception = request && injected == Some(tonic::Code::Cancelled);
             // a request body failing with CANCELLED is tonic's "client went away" = end of stream
-            let must_fail = !cancel_exception && (!exp.wellformed || injected.is_some()
+            // (the body of a non-200 response need not be looked at at all: there only the body
+            // error, the trailers and the HTTP status decide)
+            let body_judged = request || http == 200;
+            let must_fail = !cancel_exception && ((!exp.wellformed && body_judged) || injected.is_some()
                 || (!request && injected.is_none() && (trailers_garbage || matches!(trailer_code, Some(c) if c != 0)))
                 // a non-200 response without any grpc-status cannot be a success
                 || (http != 200 && trailer_code.is_none() && !trailers_garbage));
@@ -410,13 +413,16 @@ fn case(rng: &mut Rng, ctx: &mut Ctx, forced: Option<(&str, Vec<u8>)>) {
                     ctx.violation("lost-messages", format!("clean end after {} of {} messages", yielded.len(), cmp_msgs.len()));
                 }
             } else {
+                // C07 is about what happens on hostile input; whether well-formed input may be
+                // refused (a stricter receiver, a resource bound) and with which code is C01's /
+                // C04's / C06's business: observed here, not judged
                 if !may_fail && !exp.undecided {
-                    ctx.violation("spurious-error", format!("error {:?} on well-formed input", first_err_code));
+                    ctx.count("observed.error_on_wellformed_input");
                 }
                 if exp.wellformed && all_canonical && injected.is_none() && !request {
                     if let (Some(tc), Some(got)) = (trailer_code, first_err_code) {
                         if tc != 0 && got as i32 != tc {
-                            ctx.violation("wrong-trailer-status", format!("trailers said {} but stream failed with {:?}", tc, got));
+                            ctx.count("observed.error_code_differs_from_trailers");
                         }
                     }
                 }
